@@ -56,6 +56,9 @@ pub enum Op {
 pub struct C09 {
     pub world: WorldSpec,
     pub ops: Vec<Op>,
+    /// deliver through the witnessed-submission + ticketed-ingress path (receipt correlations exist only there)
+    #[serde(default)]
+    pub ticketed: bool,
 }
 
 const EVIDENCE_FIELDS: [&str; 5] = ["scheduler_faults", "faulted_heads", "runtime_fault", "next_scheduler_fault_generation", "runnable"];
@@ -131,7 +134,7 @@ impl Scenario for C09 {
                 ops.push(Op::Pass);
             }
         }
-        C09 { world, ops }
+        C09 { world, ops, ticketed: rng.chance(1, 3) }
     }
 
     fn execute(&self, ctx: &mut RunCtx) -> Outcome {
@@ -148,16 +151,29 @@ impl Scenario for C09 {
             match op {
                 Op::Deliver(intent) => {
                     let (exp, _) = model.ingest(intent);
-                    let got = w.deliver(intent);
-                    let ok = match (&exp, &got) {
-                        (RefDisposition::Accepted, Ok(warp_core::IngressDisposition::Accepted { .. })) => true,
-                        (RefDisposition::Duplicate, Ok(warp_core::IngressDisposition::Duplicate { .. })) => true,
-                        (RefDisposition::RejectedByPolicy, Err(e)) => e.contains("RejectedByPolicy"),
-                        (RefDisposition::Unroutable, Err(_)) => true,
-                        _ => false,
+                    let (ok, got) = if self.ticketed {
+                        let got = w.deliver_ticketed(intent);
+                        ctx.hit("reach.ticketed_delivery");
+                        let ok = match (&exp, &got) {
+                            (RefDisposition::Accepted, Ok(true)) | (RefDisposition::Duplicate, Ok(false)) => true,
+                            (RefDisposition::RejectedByPolicy, Err(e)) => e.contains("RejectedByPolicy"),
+                            (RefDisposition::Unroutable, Err(_)) => true,
+                            _ => false,
+                        };
+                        (ok, format!("{got:?}"))
+                    } else {
+                        let got = w.deliver(intent);
+                        let ok = match (&exp, &got) {
+                            (RefDisposition::Accepted, Ok(warp_core::IngressDisposition::Accepted { .. })) => true,
+                            (RefDisposition::Duplicate, Ok(warp_core::IngressDisposition::Duplicate { .. })) => true,
+                            (RefDisposition::RejectedByPolicy, Err(e)) => e.contains("RejectedByPolicy"),
+                            (RefDisposition::Unroutable, Err(_)) => true,
+                            _ => false,
+                        };
+                        (ok, format!("{got:?}"))
                     };
                     if !ok {
-                        return Outcome::violation("ingest_disposition_mismatch", format!("op#{oi}: reference {exp:?}, runtime {got:?}"));
+                        return Outcome::violation("ingest_disposition_mismatch", format!("op#{oi}: reference {exp:?}, runtime {got}"));
                     }
                     intents.insert(ref_ingress_id(intent), intent.clone());
                     ctx.count("time.deliveries", 1);
@@ -263,6 +279,42 @@ impl C09 {
             .filter(|(i, h)| order_before.contains(&h.key) && !model.admissible(*i).is_empty())
             .map(|(i, _)| i)
             .collect();
+        // Reference prediction (only when no poisonous intent, poked worldline or tick overflow is involved):
+        // every expected head's batch is run through the reference tick model on the pre-pass state.
+        let mut predicted: Option<Result<BTreeMap<u8, crate::model::refstate::RefState>, usize>> = None;
+        let mut predicted_receipts: Vec<Vec<([u8; 32], [u8; 32], bool)>> = Vec::new();
+        let clean = !global_max
+            && !runtime_faulted
+            && expected.iter().all(|ix| {
+                !broken_wl.contains(&model.heads[*ix].wl)
+                    && model.admissible(*ix).iter().all(|id| intents.get(id).is_some_and(|i| i.prog.nonce & 0x2000_0000 == 0))
+            });
+        if clean {
+            let mut cur: BTreeMap<u8, crate::model::refstate::RefState> = BTreeMap::new();
+            for wl in &self.world.worldlines {
+                if let Some(a) = w.abs_of(wl.id) {
+                    cur.insert(wl.id, crate::world::tick::universe_only(&a));
+                }
+            }
+            let mut outcome: Result<(), usize> = Ok(());
+            for ix in &expected {
+                let wl = model.heads[*ix].wl;
+                let items: Vec<([u8; 32], crate::world::prog::Prog)> = model.admissible(*ix).iter().filter_map(|id| intents.get(id).map(|i| (*id, i.prog.clone()))).collect();
+                let Some(pre) = cur.get(&wl) else { break };
+                let t = crate::world::tick::ref_runtime_tick(pre, 0, &items);
+                predicted_receipts.push(t.entries.clone());
+                match t.post {
+                    Ok(post) => {
+                        cur.insert(wl, post);
+                    }
+                    Err(_) => {
+                        outcome = Err(*ix);
+                        break;
+                    }
+                }
+            }
+            predicted = Some(outcome.map(|()| cur));
+        }
         // peek_order must be the canonical (key-sorted) order restricted to runnable heads
         let mut sorted = order_before.clone();
         sorted.sort();
@@ -327,6 +379,41 @@ impl C09 {
                         }
                     }
                 }
+                match &predicted {
+                    Some(Err(ix)) => {
+                        return Err(Outcome::violation("pass_committed_but_reference_cannot_apply", format!("op#{oi}: reference says the batch of head {:?} cannot be applied", model_key(&self.world, *ix))));
+                    }
+                    Some(Ok(cur)) => {
+                        ctx.hit("reach.pass_checked_against_reference_state");
+                        for (wl, exp) in cur {
+                            let got = w.abs_of(*wl).map(|a| crate::world::tick::universe_only(&a));
+                            if got.as_ref() != Some(exp) {
+                                return Err(Outcome::violation(
+                                    "runtime_post_state_mismatch",
+                                    format!("op#{oi} worldline {wl}: {}", got.map_or("missing".to_owned(), |g| crate::props::c01::diff_states(exp, &g))),
+                                ));
+                            }
+                        }
+                        // exact receipts: canonical order and dispositions
+                        let mut seen: BTreeMap<u8, u64> = BTreeMap::new();
+                        for ((r, ix), exp_entries) in records.iter().zip(&expected).zip(&predicted_receipts) {
+                            let h_wl = model_wl(&self.world, *ix);
+                            let n = seen.entry(h_wl).or_insert(0);
+                            *n += 1;
+                            let tick = ticks_before.get(&h_wl).copied().unwrap_or(0) + *n - 1;
+                            if let Ok(entry) = w.provenance.entry(r.head_key.worldline_id, WorldlineTick::from_raw(tick)) {
+                                if let Some(receipt) = entry.tick_receipt.as_ref() {
+                                    let got: Vec<([u8; 32], bool)> = receipt.entries().iter().map(|e| (e.scope_hash, matches!(e.disposition, TickReceiptDisposition::Applied))).collect();
+                                    let exp: Vec<([u8; 32], bool)> = exp_entries.iter().map(|(sh, _, a)| (*sh, *a)).collect();
+                                    if got != exp {
+                                        return Err(Outcome::violation("runtime_receipt_mismatch", format!("op#{oi} head {:?}: receipt (scope hash, applied) differs from the reference", r.head_key)));
+                                    }
+                                }
+                            }
+                        }
+                    }
+                    None => {}
+                }
                 if records.len() >= 2 {
                     *nontrivial = true;
                     ctx.hit("reach.multi_head_pass");
@@ -344,6 +431,12 @@ impl C09 {
                     }
                     ctx.hit("reach.pass_blocked_by_runtime_fault");
                 } else {
+                    if let Some(Ok(_)) = &predicted {
+                        return Err(Outcome::violation(
+                            "healthy_pass_failed",
+                            format!("op#{oi}: no poisonous intent, poked worldline or overflow is involved and the reference applies every batch, but the pass failed: {msg}"),
+                        ));
+                    }
                     // a pass may only fail if some head had work (or the global tick overflowed)
                     if expected.is_empty() && !global_max {
                         return Err(Outcome::violation("pass_failed_without_work", format!("op#{oi}: {msg}")));
@@ -464,4 +557,14 @@ impl C09 {
         }
         Ok(())
     }
+}
+
+fn model_wl(spec: &WorldSpec, ix: usize) -> u8 {
+    let m = RefRuntime::new(spec);
+    m.heads.get(ix).map_or(0, |h| h.wl)
+}
+
+fn model_key(spec: &WorldSpec, ix: usize) -> warp_core::WriterHeadKey {
+    let m = RefRuntime::new(spec);
+    m.heads[ix].key
 }
